@@ -6,7 +6,7 @@
 use crate::num::Enc;
 use crate::sx::*;
 use easy_ml::differentiation::record_operations::SwappedOperations;
-use easy_ml::differentiation::{Primitive, Record, WengertList};
+use easy_ml::differentiation::{Primitive, Record, Trace, WengertList};
 use easy_ml::numeric::extra::{Cos, Exp, Ln, Pow, Real, RealRef, Sin, Sqrt};
 use easy_ml::numeric::ZeroOne;
 
@@ -24,6 +24,23 @@ pub enum Ins<T> {
 }
 
 pub fn parse_prog<T: Enc>(body: &Sx) -> Option<Vec<Ins<T>>> {
+    parse_prog_with(body, &T::dec)
+}
+
+/// f64 numbers of the float oracle: (m e) = m * 2^e exactly (|m| < 2^53, |e| <= 60)
+pub fn dec_f64(s: &Sx) -> Option<f64> {
+    let v = s.list()?;
+    if v.len() != 2 {
+        return None;
+    }
+    let (m, e) = (v[0].i64()?, v[1].i64()?);
+    if m.abs() >= (1i64 << 53) || e.abs() > 60 {
+        return None;
+    }
+    Some(m as f64 * 2f64.powi(e as i32))
+}
+
+pub fn parse_prog_with<T>(body: &Sx, dec: &dyn Fn(&Sx) -> Option<T>) -> Option<Vec<Ins<T>>> {
     let mut prog = vec![];
     for (k, s) in body.list()?.iter().enumerate() {
         let v = s.list()?;
@@ -37,8 +54,8 @@ pub fn parse_prog<T: Enc>(body: &Sx) -> Option<Vec<Ins<T>>> {
             }
         };
         let ins = match (tag, v.len()) {
-            (0, 2) => Ins::Var(T::dec(&v[1])?),
-            (1, 2) => Ins::Const(T::dec(&v[1])?),
+            (0, 2) => Ins::Var(dec(&v[1])?),
+            (1, 2) => Ins::Const(dec(&v[1])?),
             (2, 4) => {
                 let o = v[1].i64()?;
                 if !(0..=4).contains(&o) {
@@ -51,14 +68,14 @@ pub fn parse_prog<T: Enc>(body: &Sx) -> Option<Vec<Ins<T>>> {
                 if !(0..=4).contains(&o) {
                     return None;
                 }
-                Ins::BinC(o as u8, earlier(&v[2])?, T::dec(&v[3])?)
+                Ins::BinC(o as u8, earlier(&v[2])?, dec(&v[3])?)
             }
             (4, 4) => {
                 let o = v[1].i64()?;
                 if ![1, 3, 4].contains(&o) {
                     return None;
                 }
-                Ins::CBin(o as u8, T::dec(&v[2])?, earlier(&v[3])?)
+                Ins::CBin(o as u8, dec(&v[2])?, earlier(&v[3])?)
             }
             (5, 3) => {
                 let u = v[1].i64()?;
@@ -102,8 +119,8 @@ pub fn parse_outs(outs: &Sx, n: usize) -> Option<Vec<usize>> {
 }
 
 // ---- caller-supplied functions (Model/AD.v: user1_table, user2_table) ----
-pub trait Num: Real + Primitive + Enc + PartialEq + std::fmt::Debug {}
-impl<T: Real + Primitive + Enc + PartialEq + std::fmt::Debug> Num for T {}
+pub trait Num: Real + Primitive + PartialEq + std::fmt::Debug {}
+impl<T: Real + Primitive + PartialEq + std::fmt::Debug> Num for T {}
 
 fn two<T: Num>() -> T {
     T::one() + T::one()
@@ -412,4 +429,257 @@ where
         nodes.push(r);
     }
     Ok(nodes)
+}
+
+// ---- the Trace interpreter (same forms / modes as run_records) ----
+fn tt<T: Num>(o: u8, f: usize, a: &Trace<T>, b: &Trace<T>) -> Trace<T>
+where
+    for<'t> &'t T: RealRef<T>,
+{
+    macro_rules! forms {
+        ($op:tt) => {
+            match f {
+                0 => a $op b,
+                1 => a.clone() $op b.clone(),
+                2 => a.clone() $op b,
+                _ => a $op b.clone(),
+            }
+        };
+    }
+    match o {
+        0 => forms!(+),
+        1 => forms!(-),
+        2 => forms!(*),
+        3 => forms!(/),
+        _ => match f {
+            0 => Pow::pow(a, b),
+            1 => Pow::pow(a.clone(), b.clone()),
+            2 => Pow::pow(a.clone(), b),
+            _ => Pow::pow(a, b.clone()),
+        },
+    }
+}
+
+fn tn<T: Num>(o: u8, f: usize, a: &Trace<T>, c: &T) -> Trace<T>
+where
+    for<'t> &'t T: RealRef<T>,
+{
+    macro_rules! forms {
+        ($op:tt) => {
+            match f {
+                0 => a $op c,
+                1 => a.clone() $op c.clone(),
+                2 => a.clone() $op c,
+                _ => a $op c.clone(),
+            }
+        };
+    }
+    match o {
+        0 => forms!(+),
+        1 => forms!(-),
+        2 => forms!(*),
+        3 => forms!(/),
+        _ => match f {
+            0 => Pow::pow(a, c),
+            1 => Pow::pow(a.clone(), c.clone()),
+            2 => Pow::pow(a.clone(), c),
+            _ => Pow::pow(a, c.clone()),
+        },
+    }
+}
+
+fn npow<T: Num>(f: usize, c: &T, b: &Trace<T>) -> Trace<T>
+where
+    for<'t> &'t T: RealRef<T>,
+{
+    match f {
+        0 => Pow::pow(c, b),
+        1 => Pow::pow(c.clone(), b.clone()),
+        2 => Pow::pow(c.clone(), b),
+        _ => Pow::pow(c, b.clone()),
+    }
+}
+
+fn tun<T: Num>(u: u8, f: usize, a: &Trace<T>) -> Trace<T>
+where
+    for<'t> &'t T: RealRef<T>,
+{
+    macro_rules! forms {
+        ($tr:ident :: $m:ident) => {
+            if f % 2 == 0 {
+                $tr::$m(a)
+            } else {
+                $tr::$m(a.clone())
+            }
+        };
+    }
+    match u {
+        0 => {
+            if f % 2 == 0 {
+                -a
+            } else {
+                -(a.clone())
+            }
+        }
+        1 => forms!(Sin::sin),
+        2 => forms!(Cos::cos),
+        3 => forms!(Exp::exp),
+        4 => forms!(Ln::ln),
+        _ => forms!(Sqrt::sqrt),
+    }
+}
+
+/// `seeded`: the trace to use for the variable instruction at position `seed`
+pub fn run_traces<T: Num>(prog: &[Ins<T>], seed: usize, seeded: Trace<T>, mode: u8) -> Vec<Trace<T>>
+where
+    for<'t> &'t T: RealRef<T>,
+{
+    let mut nodes: Vec<Trace<T>> = Vec::with_capacity(prog.len());
+    let other = mode == 5;
+    for (k, ins) in prog.iter().enumerate() {
+        let f = form_of(mode, k);
+        let r: Trace<T> = match ins {
+            Ins::Var(x) => {
+                if k == seed {
+                    seeded.clone()
+                } else {
+                    Trace::constant(x.clone())
+                }
+            }
+            Ins::Const(c) => Trace::constant(c.clone()),
+            Ins::Bin(o, a, b) => tt::<T>(*o, f, &nodes[*a], &nodes[*b]),
+            Ins::BinC(o, a, c) => {
+                if other {
+                    tt::<T>(*o, 0, &nodes[*a], &Trace::constant(c.clone()))
+                } else {
+                    tn::<T>(*o, f, &nodes[*a], c)
+                }
+            }
+            // number - trace and number / trace do not exist: lift the number
+            Ins::CBin(o, c, b) => {
+                if *o == 4 && !other {
+                    npow::<T>(f, c, &nodes[*b])
+                } else {
+                    tt::<T>(*o, f, &Trace::constant(c.clone()), &nodes[*b])
+                }
+            }
+            Ins::Un(u, a) => tun::<T>(*u, f, &nodes[*a]),
+            Ins::Sum(l) => {
+                if other {
+                    let mut total = Trace::<T>::zero();
+                    for &a in l {
+                        total = tt::<T>(0, a % 4, &total, &nodes[a]);
+                    }
+                    total
+                } else {
+                    l.iter().map(|&a| nodes[a].clone()).sum()
+                }
+            }
+            Ins::User1(g, a) => {
+                let g = *g;
+                nodes[*a].unary(|x| user1_f(g, x), |x| user1_df(g, x))
+            }
+            Ins::User2(g, a, b) => {
+                let g = *g;
+                nodes[*a].binary(&nodes[*b], |x, y| user2_f(g, x, y), |x, y| user2_dx(g, x, y), |x, y| user2_dy(g, x, y))
+            }
+        };
+        nodes.push(r);
+    }
+    nodes
+}
+
+
+// ---- float oracle (C04 op 2, C05 op 2): f64 through Record and Trace, checked on the Rust side only ----
+fn same_bits(a: f64, b: f64) -> bool {
+    a.to_bits() == b.to_bits() || (a.is_nan() && b.is_nan())
+}
+/// numeric equality; +0.0 and -0.0 are the same value (Neg is 0 - x with a tape and -x without),
+/// NaN equals NaN
+fn same_value(a: f64, b: f64) -> bool {
+    a == b || (a.is_nan() && b.is_nan())
+}
+fn close(f: f64, r: f64) -> bool {
+    if !f.is_finite() || !r.is_finite() {
+        return !f.is_finite() && !r.is_finite();
+    }
+    (f - r).abs() <= 1e-12 * 1f64.max(f.abs()).max(r.abs())
+}
+
+/// Returns the three flags (forms agree bit for bit, forward derivative == reverse derivative,
+/// numbers == the plain f64 computation) for the given seeds (positions of variable instructions).
+/// Forward against reverse: the Record run turns every constant instruction into a variable so
+/// that EVERY local partial derivative is on the tape; if any entry of the complete reverse
+/// derivative vector is not finite (0^negative, ln of a non-positive base of a power, division by
+/// zero ...: forward mode multiplies such a partial by a zero tangent and gets NaN where reverse
+/// mode never reads it) the comparison is skipped for that output.
+pub fn float_oracle(prog: &[Ins<f64>], outs: &[usize], seeds: &[usize]) -> (bool, bool, bool) {
+    let (mut forms, mut fwd_rev, mut values) = (true, true, true);
+    let plain = run_plain::<f64>(prog);
+    // Record, ownership forms 0..=4
+    let mut rec_canon: Option<Vec<(u64, bool, Vec<u64>)>> = None;
+    for mode in 0..5u8 {
+        let list = WengertList::<f64>::new();
+        let Ok(nodes) = run_records::<f64>(&list, prog, mode) else { return (false, false, false) };
+        if !nodes.iter().zip(plain.iter()).all(|(r, p)| same_value(r.number, *p)) {
+            values = false;
+        }
+        let obs: Vec<(u64, bool, Vec<u64>)> = outs
+            .iter()
+            .map(|&o| {
+                let d: Vec<f64> = nodes[o].try_derivatives().map(|d| d.into()).unwrap_or_default();
+                let canon = |x: f64| if x.is_nan() { u64::MAX } else { x.to_bits() };
+                (canon(nodes[o].number), nodes[o].history().is_none(), d.into_iter().map(canon).collect())
+            })
+            .collect();
+        match &rec_canon {
+            None => rec_canon = Some(obs),
+            Some(c) => {
+                if *c != obs {
+                    forms = false;
+                }
+            }
+        }
+    }
+    // reverse mode with every leaf a variable
+    let all_vars: Vec<Ins<f64>> =
+        prog.iter().map(|i| if let Ins::Const(c) = i { Ins::Var(*c) } else { i.clone() }).collect();
+    let list = WengertList::<f64>::new();
+    let Ok(recs) = run_records::<f64>(&list, &all_vars, 0) else { return (false, false, false) };
+    let any_leafless = recs.iter().any(|r| r.history().is_none());
+    for &seed in seeds {
+        let Some(Ins::Var(x0)) = prog.get(seed) else { return (false, false, false) };
+        let mut canon: Option<Vec<(f64, f64)>> = None;
+        for mode in 0..5u8 {
+            let nodes = run_traces::<f64>(prog, seed, Trace::variable(*x0), mode);
+            if !nodes.iter().zip(plain.iter()).all(|(t, p)| same_value(t.number, *p)) {
+                values = false;
+            }
+            let obs: Vec<(f64, f64)> = outs.iter().map(|&o| (nodes[o].number, nodes[o].derivative)).collect();
+            match &canon {
+                None => canon = Some(obs),
+                Some(c) => {
+                    if !c.iter().zip(obs.iter()).all(|(a, b)| same_bits(a.0, b.0) && same_bits(a.1, b.1)) {
+                        forms = false;
+                    }
+                }
+            }
+        }
+        let canon = canon.unwrap();
+        if any_leafless {
+            continue;
+        }
+        for (i, &o) in outs.iter().enumerate() {
+            let Some(d) = recs[o].try_derivatives() else { continue };
+            let reverse = d.at(&recs[seed]);
+            let full: Vec<f64> = d.into();
+            if full.iter().any(|x| !x.is_finite()) {
+                continue;
+            }
+            if !close(canon[i].1, reverse) {
+                fwd_rev = false;
+            }
+        }
+    }
+    (forms, fwd_rev, values)
 }
